@@ -233,3 +233,21 @@ M('c16-caller-rebinds-after-guards', 'C16', 'R1', ST,
         if self._fallback_filename is None:
             fh, st = _open_file(file_path)
 """)
+
+# ---------------------------------------------------------------- R9 validator in whole seconds (wave 6)
+M('c16-last-modified-rounded', 'C16', 'R9', ST,
+  """        last_modified = datetime.fromtimestamp(st.st_mtime, timezone.utc)
+""", """        last_modified = datetime.fromtimestamp(round(st.st_mtime), timezone.utc)
+""")
+M('c16-last-modified-keeps-microseconds', 'C16', 'R9', ST,
+  """        last_modified = last_modified.replace(microsecond=0)
+""", "")
+M('c16-last-modified-half-up', 'C16', 'R9', ST,
+  """        last_modified = datetime.fromtimestamp(st.st_mtime, timezone.utc)
+""", """        last_modified = datetime.fromtimestamp(int(st.st_mtime + 0.5), timezone.utc)
+""")
+M('c16-truncated-header-raw-comparison', 'C16', 'R9', ST,
+  """        last_modified = last_modified.replace(microsecond=0)
+        resp.last_modified = last_modified
+""", """        resp.last_modified = last_modified.replace(microsecond=0)
+""")
